@@ -13,7 +13,11 @@
  *   C <cfg> <me> <rcpthosts> <morercpthosts> <badmailfrom> <localiphost> <RELAYCLIENT> <ipme> <qqmode> <now> <qp>
  *        (hex; "!" = absent)  — emitted whenever the configuration changes; later lines refer to it
  *   A <cfg> <arg> <ok> <addr> <bmf> <allowed>          one addrparse() call (+ bmfcheck(), addrallowed() if ok)
- *   S <cfg> <chunk> <in> <exit> <replies> <nsub> {<from> <rcptto>}   one whole session                                  */
+ *   S <cfg> <chunk> <in> <exit> <replies> <nsub> {<from> <rcptto>}   one whole session
+ * configuration numbers (a configuration is a function of its number alone, so replay lines stay meaningful):
+ *   0..NFIXED-1 the fixed table; NFIXED..NFIXED+399 generated from a small domain list; LBASE+i (1000..1055) the "letter"
+ *   configuration written with the single character i of A..Z a..z @ [ ` { ; ABASE+k (2000..) entries over the whole
+ *   alphabet in both cases.                                                                                              */
 #include "hcommon.h"
 #include <time.h>
 #include <fcntl.h>
@@ -109,6 +113,96 @@ static const char *cdoms[] = { "local.example", "wild.example", ".wild.example",
 
 static void sets(hbuf *b, const char *s) { hbuf_reset(b); hadd(b, s, strlen(s)); }
 
+/* ---- letter configurations LBASE+i: every control file is written with the single character lset_at(i) as a host label /
+ * local part (all 52 letters, and the four characters adjacent to the two letter ranges).  In a template \1 is that
+ * character and \2 the character that differs from it in bit 5 only (the other case of a letter; '@'<->'`', '['<->'{'). */
+#define LBASE 1000
+#define NLSET 56
+static unsigned char lset_at(int i) { return i < 26 ? 'A' + i : i < 52 ? 'a' + (i - 26) : (unsigned char)"@[`{"[i - 52]; }
+static void tmpl(hbuf *b, const char *t, unsigned char c1, unsigned char c2) {
+  for (; *t; t++) { char ch = *t == 1 ? (char)c1 : *t == 2 ? (char)c2 : *t; hadd(b, &ch, 1); }
+}
+#define L_RH   "\1\n.\1.w\nrh-\1.example\n\2.lip\nx\1y.mid\n"
+#define L_MORE "\1.more\n.\1.mw\n\1\1\nm\1m.mid\n"
+#define L_BMF  "\1@\1.bad\n@\1.evil\n\1@\1\n@\1.\1\nb\1b@mid.bad\n"
+#define L_LIP  "\1.lip\n"
+
+/* ---- alphabet configurations ABASE+k: entries over the whole alphabet in both cases, generated from the number alone */
+#define ABASE 2000
+#define NALPHA 1000000
+static size_t rnd_label(char *o) {
+  static const char fav[] = "aazzAAZZmMnNyYbB09-";
+  size_t n = 1 + h_below(h_below(3) ? 3 : 8);
+  for (size_t i = 0; i < n; i++) {
+    if (h_below(40) == 0) o[i] = "@[`{"[h_below(4)];
+    else if (h_below(3) == 0) o[i] = fav[h_below(sizeof fav - 1)];
+    else o[i] = (char)(((h_below(2) ? 'a' : 'A') + (int)h_below(26)));
+  }
+  return n;
+}
+/* mode 0 as is, 1 every letter flipped with probability 1/2, 2 exactly one letter flipped, 3 upper, 4 lower */
+static void flipcase(char *s, size_t n, int mode) {
+  size_t nl = 0, pick;
+  for (size_t i = 0; i < n; i++) if ((s[i] | 32) >= 'a' && (s[i] | 32) <= 'z') nl++;
+  pick = nl ? h_below((uint32_t)nl) : 0;
+  for (size_t i = 0, l = 0; i < n; i++) {
+    if (!((s[i] | 32) >= 'a' && (s[i] | 32) <= 'z')) continue;
+    switch (mode) {
+      case 1: if (h_below(2)) s[i] ^= 32; break;
+      case 2: if (l == pick) s[i] ^= 32; break;
+      case 3: s[i] &= ~32; break;
+      case 4: s[i] |= 32; break;
+    }
+    l++;
+  }
+}
+static int rnd_flipmode(void) { static const int m[8] = { 0, 1, 1, 1, 2, 2, 3, 4 }; return m[h_below(8)]; }
+
+static void make_alpha_cfg(cfg_t *c) {
+  char pool[6][64]; size_t plen[6]; int np = 2 + (int)h_below(5);
+  for (int i = 0; i < np; i++) {
+    size_t n = 0; int nl = 1 + (int)h_below(3);
+    if (h_below(3) == 0) pool[i][n++] = '.';
+    for (int k = 0; k < nl; k++) { if (k) pool[i][n++] = '.'; n += rnd_label(pool[i] + n); }
+    plen[i] = n;
+  }
+  for (int f = F_RH; f <= F_MORE; f++) {
+    c->has[f] = h_below(f == F_RH ? 8 : 3) != 0;
+    int n = (int)h_below(6);
+    for (int k = 0; k < n && c->has[f]; k++) {
+      char e[80]; int i = (int)h_below(np); size_t m = plen[i]; const char *src = pool[i];
+      if (h_below(5) == 0) { if (*src == '.') { src++; m--; } else { e[0] = '.'; memcpy(e + 1, src, m); src = 0; m++; } }
+      if (src) memcpy(e, src, m);
+      flipcase(e, m, rnd_flipmode());
+      hadd(&c->f[f], e, m);
+      switch (h_below(12)) { case 0: hadd(&c->f[f], " \t", 2); break; case 1: hadd(&c->f[f], "\r", 1); break; }
+      if (k + 1 < n || h_below(4)) hadd(&c->f[f], "\n", 1);
+    }
+  }
+  c->has[F_BMF] = h_below(3) != 0;
+  if (c->has[F_BMF]) {
+    int n = (int)h_below(5);
+    for (int k = 0; k < n; k++) {
+      char e[160]; size_t m = 0; int i = (int)h_below(np);
+      if (h_below(2)) m += rnd_label(e);
+      e[m++] = '@';
+      { const char *src = pool[i]; size_t l = plen[i]; if (*src == '.') { src++; l--; } memcpy(e + m, src, l); m += l; }
+      flipcase(e, m, rnd_flipmode());
+      hadd(&c->f[F_BMF], e, m); hadd(&c->f[F_BMF], "\n", 1);
+    }
+  }
+  c->has[F_LIP] = h_below(2);
+  if (c->has[F_LIP]) {
+    char e[80]; int i = (int)h_below(np); const char *src = pool[i]; size_t l = plen[i];
+    if (*src == '.') { src++; l--; }
+    memcpy(e, src, l); flipcase(e, l, rnd_flipmode());
+    hadd(&c->f[F_LIP], e, l); hadd(&c->f[F_LIP], "\n", 1);
+  }
+  c->has[F_RELAY] = h_below(8) == 0;
+  if (c->has[F_RELAY] && h_below(2)) sets(&c->f[F_RELAY], "@relay.suffix");
+  c->qq = h_below(12) == 0 ? 1 + (int)h_below(3) : 0;
+}
+
 /* configuration number `id`: the fixed table, then configurations generated from the number alone */
 static void make_cfg(int id, cfg_t *c) {
   for (int i = 0; i < NF; i++) { hbuf_reset(&c->f[i]); c->has[i] = 0; }
@@ -116,6 +210,19 @@ static void make_cfg(int id, cfg_t *c) {
   if (id < NFIXED) {
     for (int i = 0; i < NF; i++) if (fixed[id].f[i]) { c->has[i] = 1; sets(&c->f[i], fixed[id].f[i]); }
     c->qq = fixed[id].qq;
+    return;
+  }
+  if (id >= LBASE && id < LBASE + NLSET) {
+    unsigned char ch = lset_at(id - LBASE);
+    static const char *t[4] = { L_RH, L_MORE, L_BMF, L_LIP };
+    for (int i = F_RH; i <= F_LIP; i++) { c->has[i] = 1; tmpl(&c->f[i], t[i], ch, ch ^ 32); }
+    return;
+  }
+  if (id >= ABASE) {
+    uint64_t save = h_rng_state;
+    h_seed(0xA1FAC08ull + (uint64_t)id);
+    make_alpha_cfg(c);
+    h_rng_state = save;
     return;
   }
   uint64_t save = h_rng_state;
@@ -345,6 +452,129 @@ static void random_session(void) {
   s_case(cfg, (int[]){ 0, 0, 1, 3, 64, 1000 }[h_below(6)], b.p, b.n);
 }
 
+/* ---- (L) letter leg: configuration LBASE+i (written with character c) probed with every character p of the same set */
+static const char *lprobe[] = { "<u@\1>", "<u@x.\1.w>", "<u@\1.w>", "<u@rh-\1.example>", "<u@x\1y.mid>", "<u@\1.more>", "<u@y.\1.mw>", "<u@\1\1>", "<u@\1\2>",
+  "<u@m\1m.mid>", "<\1@\1.bad>", "<\2@\1.bad>", "<v@\1.evil>", "<\1@\1>", "<\2@\1>", "<v@\1.\1>", "<v@\2.\1>", "<b\1b@mid.bad>", "<u@\1.lip>", "<u@x\1>" };
+#define NLPROBE ((int)(sizeof lprobe / sizeof lprobe[0]))
+static const char *lsess[] = {
+  "MAIL FROM:<\1@\1.bad>\nRCPT TO:<u@\1>\nDATA\n\3QUIT\n",
+  "MAIL FROM:<v@\1.evil>\nRCPT TO:<u@\1>\nRCPT TO:<u@a.\1.w>\nDATA\n\3QUIT\n",
+  "MAIL FROM:<\2@\1>\nRCPT TO:<u@\1\2>\nRCPT TO:<u@rh-\1.example>\nDATA\n\3",
+  "MAIL FROM:<b\1b@mid.bad>\nRCPT TO:<u@x\1y.mid>\nRCPT TO:<u@m\1m.mid>\nDATA\n\3QUIT\n",
+  "EHLO h\nMAIL FROM:<ok@remote.example>\nRCPT TO:<u@\1>\nRCPT TO:<u@a.\1.w>\nRCPT TO:<u@\1.more>\nRCPT TO:<u@b.\1.mw>\nRCPT TO:<u@[127.0.0.1]>\n"
+    "RCPT TO:<u@\1.lip>\nRCPT TO:<u@remote.example>\nDATA\n\3MAIL FROM:<v@\1.\1>\nRCPT TO:<u@\1>\nDATA\n\3QUIT\n" };
+#define NLSESS ((int)(sizeof lsess / sizeof lsess[0]))
+
+static void hadds(hbuf *b, const char *s) { hadd(b, s, strlen(s)); }
+
+static void letter_leg(int alen) {
+  static hbuf b; static const int chunks[3] = { 0, 1, 5 };
+  for (int i = 0; i < NLSET; i++) {
+    if (i % nshards != shard) continue;
+    int cfg = LBASE + i; unsigned char c = lset_at(i);
+    for (int j = 0; j < NLSET; j++) {
+      unsigned char p = lset_at(j);
+      for (int t = 0; t < NLPROBE; t++) { hbuf_reset(&b); tmpl(&b, lprobe[t], p, p ^ 32); a_case(cfg, b.p, b.n); }
+    }
+    { static const char *fixedp[] = { "<u@[127.0.0.1]>", "<u@[10.0.0.1]>", "<u@[1.2.3.4]>", "<u>", "<>" };
+      for (int t = 0; t < 5; t++) a_case(cfg, (const unsigned char *)fixedp[t], strlen(fixedp[t])); }
+    /* the boundary letters: every string over { letter in both cases @ . < > } */
+    if ((c | 32) == 'a' || (c | 32) == 'z') {
+      const unsigned char al6[6] = { (unsigned char)(c | 32), (unsigned char)(c & ~32), '@', '.', '<', '>' }; unsigned char w[16];
+      for (int len = 1; len <= alen && len <= 12; len++) {
+        uint64_t total = 1; for (int q = 0; q < len; q++) total *= 6;
+        for (uint64_t k = 0; k < total; k++) { uint64_t v = k; for (int q = 0; q < len; q++) { w[q] = al6[v % 6]; v /= 6; } a_case(cfg, w, (size_t)len); }
+      }
+    }
+    /* sessions: the character itself, its bit-5 partner, and (for the boundary characters) the neighbouring letter */
+    unsigned char ps[4] = { c, (unsigned char)(c ^ 32), c == '@' || c == '`' ? (unsigned char)(c + 1) : c == '[' || c == '{' ? (unsigned char)(c - 1) : c,
+                            (unsigned char)((c | 32) == 'z' ? c - 25 : (c | 32) >= 'a' && (c | 32) < 'z' ? c + 1 : c) };
+    for (int k = 0; k < 4; k++) for (int s = 0; s < NLSESS; s++) {
+      if (k >= 2 && ps[k] == c) continue;
+      int mode = (i + k + s) % 3, lineno = 0;
+      hbuf_reset(&b);
+      for (const char *q = lsess[s]; *q; q++) {
+        char ch = *q;
+        if (ch == 1) ch = (char)ps[k]; else if (ch == 2) ch = (char)(ps[k] ^ 32);
+        else if (ch == 3) { hadds(&b, "Subject: t\r\n\r\nhello\r\n.\r\n"); continue; }
+        else if (ch == '\n') { int crlf = mode == 0 || (mode == 2 && (lineno & 1)); lineno++; if (crlf) hadd(&b, "\r\n", 2); else hadd(&b, "\n", 1); continue; }
+        hadd(&b, &ch, 1);
+      }
+      s_case(cfg, chunks[(i + s) % 3], b.p, b.n);
+    }
+  }
+}
+
+/* ---- probes derived from the current configuration: an entry of one of its control files, its letters re-cased
+ * independently, sometimes pushed just outside the letter ranges or given one more / one fewer label */
+static int cfg_lines(int f, const unsigned char **st, size_t *ln, int max) {
+  int n = 0; const unsigned char *p = cur.f[f].p; size_t len = cur.has[f] ? cur.f[f].n : 0, i = 0;
+  while (i < len && n < max) {
+    size_t j = i; while (j < len && p[j] != '\n') j++;
+    size_t e = j; while (e > i && (p[e - 1] == ' ' || p[e - 1] == '\t' || p[e - 1] == '\r')) e--;
+    if (e > i && e - i < 150 && !memchr(p + i, 0, e - i)) { st[n] = p + i; ln[n] = e - i; n++; }
+    i = j + 1;
+  }
+  return n;
+}
+static size_t probe_addr(char *o, int sender) {
+  const unsigned char *st[32]; size_t ln[32]; char e[400]; size_t m = 0;
+  static const char *locs[] = { "u", "User", "z", "Z", "Zaz", "a.Z", "\"z Z\"" };
+  int f = sender ? (h_below(5) ? F_BMF : F_RH) : (int[]){ F_RH, F_RH, F_MORE, F_MORE, F_LIP, F_BMF }[h_below(6)];
+  int n = cfg_lines(f, st, ln, 32);
+  if (!n) { f = F_RH; n = cfg_lines(f, st, ln, 32); }
+  if (!n) { f = F_MORE; n = cfg_lines(f, st, ln, 32); }
+  if (!n) return (size_t)sprintf(o, "%s@Zed.remote.example", locs[h_below(7)]);
+  int k = (int)h_below((uint32_t)n);
+  const unsigned char *at = memchr(st[k], '@', ln[k]);
+  if (at && f == F_BMF) {
+    if (at == st[k] || h_below(5) == 0) { m = (size_t)sprintf(e, "%s", locs[h_below(7)]); memcpy(e + m, at, ln[k] - (size_t)(at - st[k])); m += ln[k] - (size_t)(at - st[k]); }
+    else { memcpy(e, st[k], ln[k]); m = ln[k]; }
+  } else {
+    m = (size_t)sprintf(e, "%s@", locs[h_below(7)]);
+    if (st[k][0] == '.') { if (h_below(6)) m += rnd_label(e + m); }
+    else if (h_below(6) == 0) { m += rnd_label(e + m); if (h_below(3)) e[m++] = '.'; }
+    memcpy(e + m, st[k], ln[k]); m += ln[k];
+  }
+  flipcase(e, m, rnd_flipmode());
+  if (h_below(8) == 0) {                  /* one letter replaced by the character just outside its range, or by the next letter */
+    size_t pos = h_below((uint32_t)m); char ch = e[pos];
+    if ((ch | 32) >= 'a' && (ch | 32) <= 'z')
+      e[pos] = ch == 'a' ? '`' : ch == 'A' ? '@' : ch == 'z' ? '{' : ch == 'Z' ? '[' : (char)(ch + 1);
+  }
+  memcpy(o, e, m); o[m] = 0;
+  return m;
+}
+static size_t probe_arg(char *o, int sender) {
+  char a[450]; probe_addr(a, sender);
+  return (size_t)sprintf(o, g_wrap[h_below(6) ? h_below(3) : h_below(NWRAP)], a);
+}
+
+static void alpha_round(void) {
+  static hbuf b; char arg[2000]; size_t al;
+  int cfg = ABASE + (int)h_below(NALPHA);
+  use_cfg(cfg);
+  for (int j = 0; j < 16; j++) { al = probe_arg(arg, j & 1); a_case(cfg, (unsigned char *)arg, al); }
+  hbuf_reset(&b);
+  int mode = h_below(4) ? 0 : 1 + (int)h_below(2), ntx = 1 + (int)h_below(2);
+  for (int t = 0; t < ntx; t++) {
+    if (h_below(4) == 0) { rnd_case(&b, h_below(2) ? "HELO" : "EHLO"); hadd(&b, " h.example", 10); rnd_eol(&b, mode); }
+    rnd_case(&b, "MAIL"); hadd(&b, " ", 1);
+    if (h_below(3) == 0) hadds(&b, "FROM:<ok@remote.example>"); else { al = probe_arg(arg, 1); hadd(&b, arg, al); }
+    rnd_eol(&b, mode);
+    int k = 1 + (int)h_below(4);
+    for (int j = 0; j < k; j++) {
+      rnd_case(&b, "RCPT"); hadd(&b, " ", 1);
+      al = h_below(8) ? probe_arg(arg, 0) : rnd_arg(arg); hadd(&b, arg, al); rnd_eol(&b, mode);
+      if (h_below(12) == 0) { rnd_case(&b, "MAIL"); hadd(&b, " ", 1); al = probe_arg(arg, 1); hadd(&b, arg, al); rnd_eol(&b, mode); }
+    }
+    rnd_case(&b, "DATA"); rnd_eol(&b, mode);
+    hadds(&b, "Subject: x\r\n\r\nz\r\n.\r\n");
+  }
+  if (h_below(3)) { rnd_case(&b, "QUIT"); rnd_eol(&b, mode); }
+  s_case(cfg, (int[]){ 0, 0, 1, 3, 64, 1000 }[h_below(6)], b.p, b.n);
+}
+
 static int unhex(const char *h, unsigned char *o) {
   int n = 0;
   if (h[0] == '-') return 0;
@@ -416,6 +646,13 @@ int main(int argc, char **argv) {
     if ((r % nshards) != shard) continue;
     random_session();
     if (r % 4 == 0) { int cfg = NFIXED + (int)h_below(400); for (int j = 0; j < 40; j++) { size_t n = rnd_arg(arg); a_case(cfg, (unsigned char *)arg, n); } }
+  }
+  /* (L) every letter, both cases, and the characters next to the letter ranges: control-file character x probe character */
+  letter_leg(alen);
+  /* (S3/A5) configurations over the whole alphabet in both cases, probed with re-cased copies of their own entries */
+  for (int r = 0; r < nrandom / 2; r++) {
+    if ((r % nshards) != shard) continue;
+    alpha_round();
   }
   }
 done:
